@@ -22,7 +22,7 @@ Your task: make ONE small, realistic change to the library source under {wt}/src
   2. the change BREAKS the property above; and
   3. the breakage needs something specific to manifest -- a particular interleaving or crash/kill point, a multi-step sequence of operations, an unusual but valid input or parameter combination, a particular layout (batch size / device count / padding), or two cooperating sites that each look fine alone -- NOT something ordinary default use would expose at once.
 {extra}
-Other people have already used these ideas, so pick something DIFFERENT: (a) `jnp.any(..., axis=1)` -> `jnp.all` in policy iteration's change count; (b) a round-robin reshape in BatchProcessor.prepare_batches without the matching inverse; (c) `values.at[...]` instead of `current_values.at[...]` in the semi-async scan; (d) dropping the initial `value_history[0] = values` in periodic value iteration; (e) an extra `config_path.unlink()` before `os.replace` when saving the config; (f) using a per-call loop counter instead of `self.iteration` for the periodic-checkpoint test; (g) an off-by-one in De Moor's half-integer CDF grid; (h) np.tile instead of np.repeat for Hendrix state bounds; (i) RVI gain read before the sweep (stale by one sweep); (j) hstack instead of vstack when gathering un-padded multi-device results; (k) a wrong wrap of prev_index in the undiscounted periodic span; (l) `if checkpoint_frequency:` instead of `is not None` in restore(); (m) RVI restore delegating to super() and dropping the gain; (n) De Moor receiving in_transit[1] instead of [-1]; (o) Mirjalili logits pairing c_0 with the wrong c_1; (p) abs(max(.)) instead of max(abs(.)) in the matrix builder; (q) wrong nesting of the multi-device batch-size clamp; (r) skipping the mins offset when mins.sum()==0; (s) creating the gamma array before x64 is enabled; (t) abs() inside the span computation; (u) reading self.key inside the jitted shuffle; (v) lazily captured initial_values in policy iteration; (w) history_index % period in the periodic solver_state; (x) skipping policy iteration's final save on multiples of the frequency; (y) using self.gamma instead of the gamma argument in a kernel; (z) moving the semi-async padding mask from the stored to the emitted value; (aa) clipping the policy-lookup index to batch_size-1; (ab) skipping policy extraction in periodic VI when a later solve() ends at its limit; (ac) load_checkpoint ignoring the requested step; (ad) Mirjalili shortage computed before the per-age clip; (ae) normalising the explicit transition matrix by the successor's row sum; (af) not validating the length of Mirjalili's c_1; (ag) RVI initial gain from values[0].
+Other people have already used these ideas, so pick something DIFFERENT: (a) `jnp.any(..., axis=1)` -> `jnp.all` in policy iteration's change count; (b) a round-robin reshape in BatchProcessor.prepare_batches without the matching inverse; (c) `values.at[...]` instead of `current_values.at[...]` in the semi-async scan; (d) dropping the initial `value_history[0] = values` in periodic value iteration; (e) an extra `config_path.unlink()` before `os.replace` when saving the config; (f) using a per-call loop counter instead of `self.iteration` for the periodic-checkpoint test; (g) an off-by-one in De Moor's half-integer CDF grid; (h) np.tile instead of np.repeat for Hendrix state bounds; (i) RVI gain read before the sweep (stale by one sweep); (j) hstack instead of vstack when gathering un-padded multi-device results; (k) a wrong wrap of prev_index in the undiscounted periodic span; (l) `if checkpoint_frequency:` instead of `is not None` in restore(); (m) RVI restore delegating to super() and dropping the gain; (n) De Moor receiving in_transit[1] instead of [-1]; (o) Mirjalili logits pairing c_0 with the wrong c_1; (p) abs(max(.)) instead of max(abs(.)) in the matrix builder; (q) wrong nesting of the multi-device batch-size clamp; (r) skipping the mins offset when mins.sum()==0; (s) creating the gamma array before x64 is enabled; (t) abs() inside the span computation; (u) reading self.key inside the jitted shuffle; (v) lazily captured initial_values in policy iteration; (w) history_index % period in the periodic solver_state; (x) skipping policy iteration's final save on multiples of the frequency; (y) using self.gamma instead of the gamma argument in a kernel; (z) moving the semi-async padding mask from the stored to the emitted value; (aa) clipping the policy-lookup index to batch_size-1; (ab) skipping policy extraction in periodic VI when a later solve() ends at its limit; (ac) load_checkpoint ignoring the requested step; (ad) Mirjalili shortage computed before the per-age clip; (ae) normalising the explicit transition matrix by the successor's row sum; (af) not validating the length of Mirjalili's c_1; (ag) RVI initial gain from values[0]; (ah) Mirjalili receipt quantities enumerated up to max_demand; (ai) Mirjalili per-age clip at max_demand; (aj) Hendrix substitution binomial counting non-substituters; (ak) unbatch_results keeping only the last trailing dimension; (al) index strides cumulated in the wrong order; (am) shuffled padding mask built with [-n_pad:]; (an) restore()'s max_checkpoints override nested under the frequency override; (ao) policy iteration assigning the improved policy after the periodic save.
 (Several people work on this machine at the same time: always pass a private `--basetemp` to pytest as shown, expect runs to be slower than usual, and never use `git stash`.)
 
 Deliverables, all inside {wt}:
